@@ -117,6 +117,37 @@ void runCase(Ctx &c) {
                         " changes c by " + std::to_string((double)worst) + " * scale");
       c.count("diffusion:solves");
     }
+    // linearity in the boundary values: c(s,e) = s*c(1,0) + e*c(0,1)
+    {
+      const auto c10 = solveDiffusionSteadyState(D, 1, 0);
+      const auto c01 = solveDiffusionSteadyState(D, 0, 1);
+      data_t worst = 0;
+      for (data_t x : xs)
+        worst = std::max(worst, std::fabs(sol(x) - (start * c10(x) + end * c01(x))) / scale);
+      c.maxval("diffusion:linearity-deviation", (double)worst);
+      if (!(worst <= 1e-6))
+        c.violation("C20", "diffusion/linearity-in-boundary-values",
+                    desc + ": c(s,e) deviates from s*c(1,0)+e*c(0,1) by " +
+                        std::to_string((double)worst) + " * scale");
+      c.count("diffusion:solves", 2);
+    }
+    // mirror image: reflected grid and coefficient, swapped boundary values
+    {
+      std::vector<data_t> mp;
+      for (size_t i = n; i-- > 0;) mp.push_back(-pts[i]);
+      std::vector<std::array<data_t, 1>> mdv(dv.rbegin(), dv.rend());
+      const Grid<data_t> mg{mp};
+      const auto msol = solveDiffusionSteadyState(
+          DSpline{Support<data_t>::createWholeGrid(mg), mdv}, end, start);
+      data_t worst = 0;
+      for (data_t x : xs) worst = std::max(worst, std::fabs(msol(-x) - sol(x)) / scale);
+      c.maxval("diffusion:mirror-deviation", (double)worst);
+      if (!(worst <= 1e-6))
+        c.violation("C20", "diffusion/mirror-symmetry",
+                    desc + ": mirrored problem deviates by " +
+                        std::to_string((double)worst) + " * scale");
+      c.count("diffusion:solves");
+    }
     if (constantD) {
       data_t worst = 0;
       for (data_t x : xs) {
@@ -129,6 +160,21 @@ void runCase(Ctx &c) {
                     desc + ": deviation from the straight line " +
                         std::to_string((double)worst) + " * scale");
       c.count("diffusion:straight-line-checked");
+    }
+    if (n >= 4 && c.caseId % 4 == 1) {
+      // coefficient on a window of the grid: refusing with the library's
+      // exception is a defined outcome, anything else must be a solution
+      std::vector<std::array<data_t, 1>> wdv(dv.begin() + 1, dv.end());
+      try {
+        const auto wsol = solveDiffusionSteadyState(
+            DSpline{Support<data_t>(grid, 1, n), wdv}, start, end);
+        if (!(std::fabs(wsol(pts[1]) - start) / scale <= 1e-9) ||
+            !(std::fabs(wsol(pts.back()) - end) / scale <= 1e-9))
+          c.violation("C20", "diffusion/window-coefficient-wrong-boundary-values", desc);
+        c.count("diffusion:window-coefficient-solved");
+      } catch (const bspline::exceptions::BSplineException &) {
+        c.count("diffusion:window-coefficient-refused");
+      }
     }
     Hasher h;
     h.s(desc);
@@ -153,13 +199,17 @@ void runCase(Ctx &c) {
   const data_t half = (data_t)(n - 1) / 2;
   const data_t width = (data_t)g.range(2, 6) / 8.0;
   const bool uniform = g.chance(1, 2);
-  data_t x = -half * width;
+  const int kind = (int)((c.caseId / 6) % 4);
+  // random cubic potentials also live on grids far from the origin
+  const data_t centre = (kind >= 2 && g.chance(1, 2)) ? (data_t)g.range(-200, 200) : 0;
+  data_t x = centre - half * width;
   for (size_t i = 0; i < n; i++) {
     pts.push_back(x);
     x += uniform ? width : width * (data_t)g.range(6, 10) / 8.0;
   }
-  const int kind = (int)((c.caseId / 6) % 4);
-  const data_t shift = (data_t)g.range(-40, 40) / 8.0;
+  static const data_t shifts[] = {0.125, -0.5, 3, -5, 40, -1000, 2.5e4};
+  const data_t shift = shifts[g.below(7)];
+  if (centre != 0) c.count("potential:off-centre-grid");
   std::string desc = "potential kind " + std::to_string(kind) + " on " +
                      std::to_string(n) + " points " + vecStr(pts) + " shift " +
                      std::to_string((double)shift);
@@ -212,6 +262,43 @@ void runCase(Ctx &c) {
                   desc + ": eigenvalues of v+c deviate from eigenvalues of v plus c by " +
                       std::to_string((double)worst) + " (relative)");
     c.count("potential:shift-checked");
+    // harmonic potential on a wide enough uniform domain: the low states are
+    // those of the oscillator (coarsely: the potential is only interpolated)
+    if (kind == 0 && uniform && half * width >= 5) {
+      data_t dev = 0;
+      for (size_t i = 0; i < 3; i++)
+        dev = std::max(dev, std::fabs(base[i].energy - ((data_t)i + 0.5)));
+      c.maxval("potential:harmonic-low-states-deviation", (double)dev);
+      if (!(dev <= 2e-2))
+        c.violation("C20", "potential/harmonic-spectrum",
+                    desc + ": lowest three eigenvalues deviate from n+1/2 by " +
+                        std::to_string((double)dev));
+      c.count("potential:harmonic-spectrum-compared");
+    }
+    // mirror image of a random cubic potential: same spectrum
+    if (kind >= 2) {
+      std::vector<data_t> mp;
+      for (size_t i = n; i-- > 0;) mp.push_back(-pts[i]);
+      const Grid<data_t> mg{mp};
+      const size_t s0 = v->getSupport().getStartIndex(), e0 = v->getSupport().getEndIndex();
+      std::vector<std::array<data_t, 4>> mcs;
+      for (size_t j = v->getCoefficients().size(); j-- > 0;) {
+        const auto &cj = v->getCoefficients()[j];
+        mcs.push_back({cj[0], -cj[1], cj[2], -cj[3]});  // u -> -u about the midpoint
+      }
+      const PSpline mv{Support<data_t>(mg, n - e0, n - s0), mcs};
+      const auto mir = solveSEWithSplinePotential(mv);
+      data_t mw = 0;
+      for (size_t i = 0; i < 10; i++)
+        mw = std::max(mw, std::fabs(mir[i].energy - base[i].energy) /
+                              (1 + std::fabs(base[i].energy)));
+      c.maxval("potential:mirror-deviation", (double)mw);
+      if (!(mw <= 1e-8))
+        c.violation("C20", "potential/mirror-symmetry",
+                    desc + ": spectrum of the mirrored potential deviates by " +
+                        std::to_string((double)mw));
+      c.count("potential:mirror-checked");
+    }
     Hasher h;
     h.s(desc);
     c.nontrivial(h.h);
